@@ -3,7 +3,7 @@
    OCaml types; nat, positive, N, Z stay Coq datatypes.  No Extract Constant of our own.
    Run with the current directory set to the output directory (driver/extracted). *)
 From Coq Require Import Extraction ExtrOcamlBasic.
-From Crusta Require Import Spec.AF Sat.Cnf Model.Store Model.Encoders.
+From Crusta Require Import Spec.AF Sat.Cnf Sat.Prog Model.Store Model.Encoders Model.Graph Model.Solvers.
 Extraction Language OCaml.
 Separate Extraction
   (* spec oracle *)
@@ -16,4 +16,8 @@ Separate Extraction
   Store.iter_attacks_from Store.iter_attacks_to Store.get_argument Store.has_argument_with_id
   (* encoders *)
   Encoders.encode Encoders.assignment_to_extension Encoders.arg_to_lit Encoders.first_range_var
-  Encoders.range_var Encoders.enc_base.
+  Encoders.range_var Encoders.enc_base
+  (* SAT programs, graph algorithms, static solvers *)
+  Prog.init_st Prog.log_of Prog.script_oracle Prog.run
+  Graph.view_of_fw Graph.view_of_af Graph.grounded Graph.all_ccs Graph.merged_cc_of Graph.cc_new
+  Solvers.run_query.
